@@ -269,18 +269,29 @@ Qed.
 (* ---------- weighted_median: thresholds + loop ---------- *)
 
 (* the facts about the two f64 thresholds that the balance statement uses
-   (decidable; established in Proofs/GridRcbThresholds.v) *)
-Definition thr_ok_b (fw : bool) (tolb : N) (tot : Z) : bool :=
+   (decidable; established in Proofs/GridRcbFloat.v): sanity and position
+   relative to half the total, then how far from 0.99 / 1.01 times half they
+   can be -- one unit for i64 (truncation), a relative 2^-40 for f64 (rounding) *)
+Definition band_ok_b (fw : wty) (tot mn mx : Z) : bool :=
+  match fw with
+  | I64 => (99 * tot - 200 <=? 200 * mn) && (200 * mx <=? 101 * tot + 200)
+  | F64 _ => (2 ^ 40 * (100 * (tot - 2 * mn)) <=? (2 ^ 40 + 1) * tot)
+             && (2 ^ 40 * (100 * (2 * mx - tot)) <=? (2 ^ 40 + 1) * tot)
+  end%Z.
+
+Definition thr_ok_b (fw : wty) (tolb : N) (tot : Z) : bool :=
   let '(mn, mx) := thresholds fw tolb tot in
   ((0 <=? mx) && (mn <=? mx + 1)
-   && (2 * mn <=? tot + 1) && (tot <=? 2 * mx + 1)
-   && (99 * tot - 200 <=? 200 * mn) && (200 * mx <=? 101 * tot + 200))%Z.
+   && (2 * mn <=? tot + 1) && (tot <=? 2 * mx + 1))%Z
+  && band_ok_b fw tot mn mx.
 
 Lemma thr_ok_b_spec fw tolb tot mn mx :
   thresholds fw tolb tot = (mn, mx) -> thr_ok_b fw tolb tot = true ->
-  (0 <= mx /\ mn <= mx + 1 /\ 2 * mn <= tot + 1 /\ tot <= 2 * mx + 1
-   /\ 99 * tot - 200 <= 200 * mn /\ 200 * mx <= 101 * tot + 200)%Z.
-Proof. unfold thr_ok_b. intros ->. intros H. lia. Qed.
+  (0 <= mx /\ mn <= mx + 1 /\ 2 * mn <= tot + 1 /\ tot <= 2 * mx + 1)%Z
+  /\ band_ok_b fw tot mn mx = true.
+Proof.
+  unfold thr_ok_b. intros ->. intros H. apply andb_true_iff in H as [H Hb]. split; [lia|exact Hb].
+Qed.
 
 Lemma weighted_median_spec c fuel T fw ws tot mn mx p w :
   thresholds fw (tol_bits c) tot = (mn, mx) -> (0 <= mx)%Z -> (mn <= mx + 1)%Z -> ws <> [] ->
@@ -303,29 +314,37 @@ Proof.
 Qed.
 
 (* the property's reading of a returned cut: the low side is within 1% of half
-   the weight (plus one unit), or slab [p] strictly contains the half-weight mark *)
-Definition bal_strong (tot wl sr sl : Z) : Prop :=
-  (100 * Z.abs (2 * wl - tot) <= tot + 200 \/ (2 * wl < tot <= 2 * (wl + sr)))%Z.
+   the weight (i64: plus one unit; f64: no unit), or slab [p] strictly contains
+   the half-weight mark *)
+Definition band_of (fw : wty) : Z -> Z -> Prop :=
+  match fw with I64 => band_unit | F64 _ => band_rel 40 end.
+Definition bal_strong (fw : wty) (tot wl sr sl : Z) : Prop :=
+  band_of fw tot wl \/ (2 * wl < tot <= 2 * (wl + sr))%Z.
 
-Lemma bal_strong_prop tot wl sr sl : bal_strong tot wl sr sl -> bal_prop tot wl sr sl.
-Proof. unfold bal_strong, bal_prop. lia. Qed.
+Lemma bal_strong_prop fw tot wl sr sl : bal_strong fw tot wl sr sl -> bal_prop fw tot wl sr sl.
+Proof.
+  unfold bal_strong, bal_prop, band_of. destruct fw; unfold bal_unit, bal_rel, adjacent; intros [H|H]; auto; right; left; lia.
+Qed.
 
 Lemma median_post_balanced fw tolb ws tot mn mx p w :
   thresholds fw tolb tot = (mn, mx) -> thr_ok_b fw tolb tot = true ->
   tot = sumZ ws -> (0 <= tot)%Z ->
   median_post ws mn mx p w ->
-  exists s, nth_opt ws p = Some s /\ bal_strong tot w s 0.
+  exists s, nth_opt ws p = Some s /\ bal_strong fw tot w s 0.
 Proof.
   intros Ht Hok Htot Hnn (Hp & Hw & Hb).
-  destruct (thr_ok_b_spec _ _ _ _ _ Ht Hok) as (H0 & H1 & H2 & H3 & H4 & H5).
+  destruct (thr_ok_b_spec _ _ _ _ _ Ht Hok) as ((H0 & H1 & H2 & H3) & Hband).
   destruct (pre_S ws p Hp) as (s & Hs & Hpre).
   exists s. split; [exact Hs|]. unfold bal_strong.
-  destruct Hb as [Hb|(Hlt & Hb)]; [left; lia|].
-  right. destruct Hb as [Hb|Hb].
-  - (* last slab: everything above the cut *)
-    assert (pre ws (S p) = sumZ ws) by (unfold pre; rewrite Hb, firstn_all; reflexivity).
-    lia.
-  - lia.
+  destruct Hb as [Hb|(Hlt & Hb)].
+  - left. unfold band_of, band_ok_b in *. destruct fw.
+    + unfold band_unit. lia.
+    + unfold band_rel. change (2 ^ 40)%Z with 1099511627776%Z in *. lia.
+  - right. destruct Hb as [Hb|Hb].
+    + (* last slab: everything above the cut *)
+      assert (pre ws (S p) = sumZ ws) by (unfold pre; rewrite Hb, firstn_all; reflexivity).
+      lia.
+    + lia.
 Qed.
 
 Lemma weighted_median_T1_stuck c fw ws tot :
